@@ -77,6 +77,9 @@ type lnk struct {
 	ready  bool
 	fail   bool
 	log    []write
+	hist   []write // every write, never cleared
+	markLen int
+	markAt  int64
 	all    []byte
 	sent   []byte
 	closed bool
@@ -107,6 +110,7 @@ func (s sink) Write(p []byte) (int, error) {
 		}
 		if s.l.ready {
 			s.l.log = append(s.l.log, write{time.Since(s.l.t0).Nanoseconds(), append([]byte(nil), p...)})
+			s.l.hist = append(s.l.hist, write{time.Since(s.l.t0).Nanoseconds(), append([]byte(nil), p...)})
 			s.l.all = append(s.l.all, p...)
 			s.l.mu.Unlock()
 			return len(p), nil
@@ -219,6 +223,7 @@ func (e *Engine) episode(ops []string, res *report.Result) *report.Failure {
 	toxType := map[string]string{}
 	var result *report.Failure
 	var shape []string
+	lastPcs := ""
 	defer func() {
 		// let everything finish: open all sinks, end all sources, let time pass
 		for _, l := range links {
@@ -345,8 +350,53 @@ func (e *Engine) episode(ops []string, res *report.Result) *report.Failure {
 		case "adv":
 			d, _ := strconv.ParseInt(w[1], 10, 64)
 			exec = func() { time.Sleep(time.Duration(d)) }
+		case "mark":
+			// harness only: remember where every sink's log stands (start of a probe)
+			for _, l := range links {
+				l.mu.Lock()
+				l.markLen = len(l.hist)
+				l.markAt = since()
+				l.mu.Unlock()
+			}
+			continue
+		case "probecheck":
+			// harness only (model-free oracle of C04/C14): the old link w[1] and the link w[2]
+			// started after the last configuration change got the same probe at the same
+			// moments; with the same toxics in effect they must treat it identically
+			a, z := links[w[1]], links[w[2]]
+			if a == nil || z == nil || apiBusy.Load() > 0 {
+				continue
+			}
+			a.mu.Lock()
+			z.mu.Lock()
+			okA := !a.closed && !a.eof && a.ready && !a.fail
+			var sa, sz []string
+			for _, x := range a.hist[a.markLen:] {
+				sa = append(sa, fmt.Sprintf("%d:%d", x.at-a.markAt, len(x.data)))
+			}
+			for _, x := range z.hist[z.markLen:] {
+				sz = append(sz, fmt.Sprintf("%d:%d", x.at-z.markAt, len(x.data)))
+			}
+			zc, ac := z.closed, a.closed
+			z.mu.Unlock()
+			a.mu.Unlock()
+			if okA && !everLimit[a.dir] && (strings.Join(sa, " ") != strings.Join(sz, " ") || zc != ac) {
+				prop := "C04"
+				if strings.Contains(","+e.Props+",", ",C14,") && !strings.Contains(","+e.Props+",", ",C04,") {
+					prop = "C14"
+				}
+				result = fail(i, "oracle", prop, "", fmt.Sprintf("old link %s: [%s] closed=%v; new link %s: [%s] closed=%v (time since probe start : bytes)", a.name, strings.Join(sa, " "), ac, z.name, strings.Join(sz, " "), zc),
+					"a connection established before the latest configuration change and one established after it treat the same traffic differently: the listed toxics are not what is in effect on both", "e3:"+prop+":old-vs-new")
+			}
+			if result != nil {
+				break
+			}
+			continue
 		default:
 			return nil
+		}
+		if result != nil {
+			break
 		}
 		if exec == nil {
 			res.Count("skipped:no-such-link")
@@ -377,8 +427,17 @@ func (e *Engine) episode(ops []string, res *report.Result) *report.Failure {
 			res.Count("episode:stopped-at-select-race")
 			break
 		}
+		if w[0] == "add" || w[0] == "upd" || w[0] == "del" || w[0] == "reset" {
+			// which internal states the reconfiguration hits (coverage of "at every hand-off")
+			for _, f := range strings.Fields(lastPcs) {
+				if i := strings.Index(f, "["); i > 0 {
+					res.Count("api-at:" + f[i:])
+				}
+			}
+		}
 		exec()
 		synctest.Wait()
+		lastPcs = pcsOf(mGuide)
 		res.Count("op:" + w[0])
 		// observe exactly the links the model still lists
 		mf := strings.Fields(mObs)
@@ -472,11 +531,28 @@ func (e *Engine) episode(ops []string, res *report.Result) *report.Failure {
 				l.eof = true
 			}
 		}
-		for k := 0; k < 3; k++ {
+		// virtual time is free: keep going until nothing has moved for a while
+		quiet, lastTotal := 0, -1
+		for k := 0; k < 2000 && quiet < 4; k++ {
 			synctest.Wait()
 			time.Sleep(60 * time.Second)
+			synctest.Wait()
+			total := 0
+			for _, l := range links {
+				l.mu.Lock()
+				total += len(l.all)
+				if l.closed {
+					total++
+				}
+				l.mu.Unlock()
+			}
+			if total == lastTotal {
+				quiet++
+			} else {
+				quiet = 0
+			}
+			lastTotal = total
 		}
-		synctest.Wait()
 		finished = true
 		for _, n := range order {
 			l := links[n]
